@@ -175,6 +175,9 @@ impl<'a> SimdOp for SimdTopK<'a> {
     fn eval<I: Isa>(self, isa: I) -> Self::Output {
         let SimdTopK { logits, indices, k } = self;
 
+        // Keep all candidates if there are fewer than `k`.
+        let k = k.min(logits.len());
+
         let ops = isa.f32();
         let mask_ops = isa.m32();
         let compare_gt = |a: f32, b: f32| a.total_cmp(&b).reverse();
